@@ -894,6 +894,14 @@ func (in *Interp) store(st *State, addr, v AV, pos token.Pos) {
 			return
 		}
 	case FieldRef:
+		// a slice built by make([]T, n) and filled by index is, once it is put into a field (the List of an
+		// AST node, ...), read as the list of its elements; later element stores through the old slice are
+		// not reflected (construction code finishes a slice before publishing it)
+		if vr, ok := v.(Ref); ok {
+			if vo := st.heap[vr.ID]; vo != nil && vo.Kind == 'a' && vo.Site == "makeslice" {
+				v = SliceV{Elems: append([]AV(nil), vo.Elems...)}
+			}
+		}
 		if r, ok := a.Base.(Ref); ok {
 			if o := st.heap[r.ID]; o != nil && o.Kind == 's' {
 				o.Fields[a.Field] = v
@@ -1191,6 +1199,19 @@ func (in *Interp) instrs(st *State, b, pred *ssa.BasicBlock, idx int, k kont) {
 					elems[i] = Zero{et}
 				}
 				in.set(st, ins, st.alloc(&Obj{T: ins.Type(), Kind: 'a', Elems: elems, Site: "makeslice"}))
+			} else if c, S, ok := constPlusLen(in.val(st, ins.Len)); ok && c >= 0 && c <= 16 {
+				// make([]T, c+len(S)): c zero elements and a run of len(S) zero elements ("hole"), which a
+				// copy(dst[c:], S) fills with the elements of S
+				var et types.Type
+				if sl, isSl := ins.Type().Underlying().(*types.Slice); isSl {
+					et = sl.Elem()
+				}
+				elems := make([]AV, 0, c+1)
+				for i := int64(0); i < c; i++ {
+					elems = append(elems, Zero{et})
+				}
+				elems = append(elems, Spread{V: Expr{Op: "zeros", Args: []AV{S}}})
+				in.set(st, ins, st.alloc(&Obj{T: ins.Type(), Kind: 'a', Elems: elems, Site: "makeslice"}))
 			} else {
 				in.set(st, ins, NonNil{"makeslice"})
 			}
@@ -1326,6 +1347,90 @@ func (in *Interp) assumeVal(st *State, c AV, truth bool) {
 	}
 }
 
+// constPlusLen: n = c + len(S) (either order), S any value
+func constPlusLen(n AV) (int64, AV, bool) {
+	e, ok := n.(Expr)
+	if !ok {
+		return 0, nil, false
+	}
+	if e.Op == "len" && len(e.Args) == 1 {
+		return 0, e.Args[0], true
+	}
+	if e.Op != "+" || len(e.Args) != 2 {
+		return 0, nil, false
+	}
+	for i := 0; i < 2; i++ {
+		if c, ok := asInt(e.Args[i]); ok {
+			if le, ok := e.Args[1-i].(Expr); ok && le.Op == "len" && len(le.Args) == 1 {
+				return c, le.Args[0], true
+			}
+		}
+	}
+	return 0, nil, false
+}
+
+func holeOf(e AV) (AV, bool) {
+	if sp, ok := e.(Spread); ok {
+		if z, ok := sp.V.(Expr); ok && z.Op == "zeros" && len(z.Args) == 1 {
+			return z.Args[0], true
+		}
+	}
+	return nil, false
+}
+
+func hasHole(o *Obj) bool {
+	for _, e := range o.Elems {
+		if _, ok := holeOf(e); ok {
+			return true
+		}
+	}
+	return false
+}
+
+// copySlice models copy(dst, src) where dst is (a view of) a slice under construction.
+func (in *Interp) copySlice(st *State, dst, src AV) (AV, bool) {
+	var o *Obj
+	lo := 0
+	switch d := dst.(type) {
+	case Ref:
+		o = st.heap[d.ID]
+	case Expr:
+		if d.Op == "view" && len(d.Args) == 2 {
+			if r, ok := d.Args[0].(Ref); ok {
+				o = st.heap[r.ID]
+				if l, ok := asInt(d.Args[1]); ok {
+					lo = int(l)
+				}
+			}
+		}
+	}
+	if o == nil || o.Kind != 'a' || lo > len(o.Elems) {
+		return nil, false
+	}
+	// the region is exactly one hole of len(src) elements: it now holds the elements of src
+	if lo == len(o.Elems)-1 {
+		if S, ok := holeOf(o.Elems[lo]); ok && S.String() == src.String() {
+			o.Elems[lo] = Spread{V: src}
+			return Expr{Op: "len", Args: []AV{src}}, true
+		}
+	}
+	// concrete elements on both sides
+	if sv, ok := src.(SliceV); ok && !hasHole(o) {
+		for _, e := range sv.Elems {
+			if _, sp := e.(Spread); sp {
+				return nil, false
+			}
+		}
+		n := 0
+		for i := 0; i < len(sv.Elems) && lo+i < len(o.Elems); i++ {
+			o.Elems[lo+i] = sv.Elems[i]
+			n++
+		}
+		return mkInt(int64(n)), true
+	}
+	return nil, false
+}
+
 func (in *Interp) slice(st *State, x, lo, hi AV) AV {
 	// constant string with constant bounds
 	if str, ok := asString(x); ok {
@@ -1343,6 +1448,10 @@ func (in *Interp) slice(st *State, x, lo, hi AV) AV {
 	}
 	if r, ok := x.(Ref); ok {
 		if o := st.heap[r.ID]; o != nil && o.Kind == 'a' {
+			if l, okl := asInt(lo); okl && hi == nil && hasHole(o) && l >= 0 && int(l) < len(o.Elems) {
+				// dst[l:] of a slice under construction: a view (copy writes through it)
+				return Expr{Op: "view", Args: []AV{r, mkInt(l)}}
+			}
 			x = SliceV{Elems: append([]AV(nil), o.Elems...)}
 		}
 	}
@@ -1475,6 +1584,11 @@ func (in *Interp) builtin(st *State, name string, args []AV, ins *ssa.Call) ([]A
 				}
 			case Ref:
 				if o := st.heap[a.ID]; o != nil && o.Kind == 'a' {
+					for _, e := range o.Elems {
+						if _, sp := e.(Spread); sp {
+							return []AV{Expr{Op: "len", Args: args}}, true
+						}
+					}
 					return []AV{mkInt(int64(len(o.Elems)))}, true
 				}
 			}
@@ -1496,7 +1610,15 @@ func (in *Interp) builtin(st *State, name string, args []AV, ins *ssa.Call) ([]A
 		}
 	case "panic", "print", "println":
 		return nil, false
-	case "copy", "delete", "close", "clear":
+	case "copy":
+		if len(args) == 2 {
+			if ret, ok := in.copySlice(st, args[0], args[1]); ok {
+				return []AV{ret}, true
+			}
+		}
+		st.Events = append(st.Events, Event{Kind: "call", Note: "builtin " + name, Callee: Sym{Name: "builtin:" + name}, Args: args, Pos: ins.Pos(), Stack: st.stackString()})
+		return []AV{Top{name}}, true
+	case "delete", "close", "clear":
 		st.Events = append(st.Events, Event{Kind: "call", Note: "builtin " + name, Callee: Sym{Name: "builtin:" + name}, Args: args, Pos: ins.Pos(), Stack: st.stackString()})
 		return []AV{Top{name}}, true
 	case "recover":
